@@ -125,7 +125,7 @@ def _dyadic(r, lo=-64, hi=64, den=(1, 2, 4, 8)):
     return r.randint(lo, hi) / r.choice(den)
 
 
-def _mappings(r, dtype, M, nested, first_lut=False):
+def _mappings(r, dtype, M, nested, first_lut=False, single_firsts=None):
     """-> (mappings argument for the constructor, description list per channel of dicts)"""
     from highdicom.pm import RealWorldValueMapping
     from pydicom.sr.codedict import codes
@@ -138,7 +138,13 @@ def _mappings(r, dtype, M, nested, first_lut=False):
         for k in range(r.choice([1, 1, 2, 3])):
             label = f'L{j}_{k}'
             unit = units[(j + k) % 3]
-            if first_lut and k == 0:
+            if single_firsts is not None and k == 0:
+                # a table with ONE entry (first == last): pydicom hands such a table back as a bare number
+                first = last = single_firsts[j]
+                lut = [_dyadic(r)]
+                ms.append(RealWorldValueMapping(label, 'e' + label, unit, (first, last), lut_data=lut))
+                ds_.append({'kind': 'lut', 'label': label, 'first': first, 'last': last, 'lut': lut, 'unit': unit.value})
+            elif first_lut and k == 0:
                 lut = [_dyadic(r) for _ in range(64)]
                 ms.append(RealWorldValueMapping(label, 'e' + label, unit, (0, 63), lut_data=lut))
                 ds_.append({'kind': 'lut', 'label': label, 'first': 0, 'last': 63, 'lut': lut, 'unit': unit.value})
@@ -275,6 +281,13 @@ def _sel_json(sel):
     return {'unit': sel.value}
 
 # ------------------------------------------------------------------ parametric maps
+_LUT1_ERROR = 'TypeError: len() of unsized object'
+
+
+def _is_single(m):
+    return m['kind'] == 'lut' and len(m['lut']) == 1
+
+
 def _pm_case(ctx, idx):
     r = ctx.rng('pm', idx)
     dtype = r.choice(['uint8', 'uint16', 'uint16', 'float32', 'float64'])
@@ -298,6 +311,10 @@ def _pm_case(ctx, idx):
         profile, ndim, M = 'lut-per-channel', 4, r.choice([2, 2, 3])
         n = r.choice([1, 2, 3])
         shape = (n, rows, cols, M)
+    elif not dtype.startswith('float') and ctx.rng('pm-profile', idx).random() < 0.07:
+        # every channel's first mapping is a one-entry table and the channel's planes hold exactly that value (one pixel
+        # of the last plane may lie outside: that frame must be refused)
+        profile = 'lut-single'
     d = {'idx': idx, 'dtype': dtype, 'source': kind, 'ndim': ndim, 'N': n, 'M': M, 'ts': ts, 'rows': rows, 'cols': cols,
          'layout': layout, 'explicit_pos': explicit_pos, 'profile': profile}
     return d, r, shape
@@ -309,8 +326,21 @@ def _build_pm(ctx, d, r, shape):
     a = _pm_array(ctx, d['idx'], r, d['dtype'], shape)
     if d.get('profile') == 'lut-per-channel':
         a = (a % 48).astype(a.dtype)
+    single_firsts = None
+    if d.get('profile') == 'lut-single':
+        r2 = ctx.rng('pm-single', d['idx'])
+        single_firsts = [r2.randint(0, 20) for _ in range(d['M'])]
+        a = a.copy()
+        for j, v in enumerate(single_firsts):
+            if a.ndim == 4:
+                a[..., j] = v
+            else:
+                a[...] = v
+        if r2.random() < 0.3:
+            a.reshape(-1)[-1] += 1
     a = _layout(a, d['layout'])
-    maps, desc = _mappings(r, d['dtype'], d['M'], nested=(d['ndim'] == 4), first_lut=(d.get('profile') == 'lut-per-channel'))
+    maps, desc = _mappings(r, d['dtype'], d['M'], nested=(d['ndim'] == 4), first_lut=(d.get('profile') == 'lut-per-channel'),
+                           single_firsts=single_firsts)
     src, src_pos, cs = _sources(ctx, d['idx'], r, d['source'], d['N'], d['rows'], d['cols'])
     kw = {}
     pos = src_pos
@@ -370,7 +400,7 @@ def _check_pm(ctx, idx, reqs, pending):
         nontriv = (d['dtype'], d['source'], N, M, d['ts'], d['layout'])
     F = N * M
 
-    def obs(path, ok, detail=None, frame=None, **h):
+    def obs(path, ok, detail=None, frame=None, single_lut=False, **h):
         ctx.case(sample=dict(case, path=path) if ctx.evaluations % 389 == 0 else None,
                  nontrivial_key=(nontriv + (path,)) if (nontriv and ok) else None,
                  kind='pm', path=path, dtype=d['dtype'], syntax=TSNAME[d['ts']], source=d['source'], N=N, M=M,
@@ -385,7 +415,14 @@ def _check_pm(ctx, idx, reqs, pending):
                 if ctx._c19_float_errors > 60:
                     ctx.hist('float_unreadable', path)
                     return
-            ctx.fail(dict(case, path=path, frame=frame), detail or 'differs from the input plane', site=path)
+            # the open finding C19-single-entry-lut-unreadable fails on every such read: the first 40 are reported
+            if single_lut and detail == _LUT1_ERROR:
+                ctx._c19_lut1_errors = getattr(ctx, '_c19_lut1_errors', 0) + 1
+                if ctx._c19_lut1_errors > 40:
+                    ctx.hist('single_entry_lut_unreadable', path)
+                    return
+            ctx.fail(dict(case, path=path, frame=frame, **({'single_lut': True} if single_lut else {})),
+                     detail or 'differs from the input plane', site=path)
 
     # ---- L1: the data set itself
     elem = {'uint8': 'PixelData', 'uint16': 'PixelData', 'float32': 'FloatPixelData', 'float64': 'DoubleFloatPixelData'}[d['dtype']]
@@ -483,7 +520,8 @@ def _check_pm(ctx, idx, reqs, pending):
                     good = s5 == 'ok' and np.asarray(v).shape == exp.shape and bool(np.array_equal(np.asarray(v, dtype=np.float64), exp))
                     obs(f'{tag}/rwvm', good, (v if s5 != 'ok' else {'what': 'real-world values differ from mapping %s of channel %d' % (target['label'], j),
                                                                       'got': np.asarray(v, dtype=np.float64).reshape(-1)[:8].tolist(),
-                                                                      'want': exp.reshape(-1)[:8].tolist()}), f, float=is_float, mapping=m['kind'])
+                                                                      'want': exp.reshape(-1)[:8].tolist()}), f, float=is_float, mapping=m['kind'],
+                        single_lut=_is_single(target))
                 if not lazy and d['ts'] in NATIVE and not is_float:
                     queries.append(dict({'q': 'real', 'f': f}, **_sel_json(selector)))
                     impl['answers'].append([_rat(float(t)) for t in np.asarray(v, dtype=np.float64).reshape(-1)] if s5 == 'ok' else 'err')
@@ -509,7 +547,8 @@ def _check_pm(ctx, idx, reqs, pending):
                     obs(f'{tag}/rwvm-batch', good,
                         v if s8 != 'ok' else {'what': 'batch of real-world frames differs from the per-frame mappings', 'frames': fs,
                                               'got': np.asarray(v, dtype=np.float64).reshape(-1)[:8].tolist(),
-                                              'want': want_b.reshape(-1)[:8].tolist()}, fs, mapping='/'.join(sorted({desc[f % M][0]['kind'] for f in fs})))
+                                              'want': want_b.reshape(-1)[:8].tolist()}, fs, mapping='/'.join(sorted({desc[f % M][0]['kind'] for f in fs})),
+                        single_lut=any(_is_single(desc[f % M][0]) for f in fs))
         # volume (one mapping per position, distinct positions along one direction)
         if cs == 'PATIENT' and M == 1 and N >= 2 and not (d['explicit_pos'] and len({p[:2] for p in pos}) > 1):
             s6, vol = _try(im.get_volume, dtype=np.float64, apply_real_world_transform=False, apply_modality_transform=False,
@@ -619,15 +658,21 @@ def _mapping_cells(ctx, reqs, pending):
                          'an inconsistent real-world value mapping was accepted', site='rwvm-init')
         k += 1
     ctx.exhaustive.append(f'RealWorldValueMapping constructor rules on {k} cells')
-    # apply()
+    # apply(); the first 12 cases of the stream are one-entry tables (first == last), inside and outside their value
+    singles = [(f, inside) for f in (0, 1, 7, 18, 255, 65535) for inside in (True, False)]
     for i in range(ctx.n(60, 1500)):
         r = ctx.rng('apply', i)
-        _, desc = _mappings(r, r.choice(['uint8', 'uint16']), 1, nested=True)
+        if i < len(singles):
+            _, desc = _mappings(r, 'uint16', 1, nested=True, single_firsts=[singles[i][0]])
+        else:
+            _, desc = _mappings(r, r.choice(['uint8', 'uint16']), 1, nested=True)
         m = desc[0][0]
         lo, hi = int(m['first']), int(m['last'])
         vals = [r.randint(max(0, lo - 2), min(65535, hi + 2)) for _ in range(r.randint(1, 6))]
         if r.random() < 0.7:
             vals = [min(max(v, lo), hi) for v in vals]
+        if i < len(singles):
+            vals = [lo] * r.randint(1, 4) if singles[i][1] else [lo] + [lo + 1 if lo < 65535 else lo - 1]
         arr = np.array(vals, dtype=np.uint16).reshape(1, -1)
         obj = RealWorldValueMapping(m['label'], 'e', codes.UCUM.NoUnits, (m['first'], m['last']),
                                     **({'lut_data': m['lut']} if m['kind'] == 'lut' else {'slope': m['slope'], 'intercept': m['intercept']}))
@@ -944,6 +989,7 @@ def run(ctx):
             crashed.append(e)
             ctx.note(f'section {f.__name__} crashed: ' + traceback.format_exc()[-600:])
     section(_mapping_cells, ctx, reqs, pending)
+    section(_lut1_witness, ctx)
     section(_pm_refusals, ctx, reqs, pending)
     for idx in range(ctx.n(60, 2500)):
         if len(crashed) > 3:
@@ -993,6 +1039,33 @@ def _float_witness(ctx):
             ctx.fail(dict(case, path=f'{tag}/get_stored_frame'), v if st != 'ok' else 'differs', site=f'{tag}/get_stored_frame')
 
 
+def _lut1_witness(ctx):
+    """fixed scenario of the open finding C19-single-entry-lut-unreadable: a 2-plane uint8 map holding only the value 7,
+    mapping = the one-entry table (7, 7) -> [2.5]; every frame must read as 2.5"""
+    import highdicom as hd
+    from highdicom.pm import ParametricMap, RealWorldValueMapping
+    from pydicom.sr.codedict import codes
+    from gen.sources import ct_series
+    src = ct_series(2, 3, 4)
+    arr = np.full((2, 3, 4), 7, dtype=np.uint8)
+    m = RealWorldValueMapping('a', 'ea', codes.UCUM.NoUnits, (7, 7), lut_data=[2.5])
+    st, out = _try(m.apply, arr[0])
+    ctx.case(kind='rwvm-apply', outcome=st, mapping='lut')
+    if st != 'ok' or not np.array_equal(np.asarray(out, dtype=np.float64), np.full((3, 4), 2.5)):
+        ctx.fail({'kind': 'rwvm-apply', 'witness': True, 'mapping': {'first': 7, 'last': 7, 'kind': 'lut'}, 'values': [7]},
+                 out if st != 'ok' else 'differs', site='rwvm-apply')
+    pm = ParametricMap(src, arr, hd.UID(), 1, hd.UID(), 1, 'm', 'mm', '1', 'sn', False, [m], 0.5, 1.0)
+    blob = _written(pm)
+    case = {'kind': 'pm', 'dtype': 'uint8', 'witness': True, 'single_lut': True}
+    for lazy in (False, True):
+        tag = 'lazy' if lazy else 'eager'
+        im = hd.imread(io.BytesIO(blob), lazy_frame_retrieval=lazy)
+        st, v = _try(im.get_frame, 2, apply_real_world_transform=True)
+        ctx.case(kind='pm', path=f'{tag}/rwvm', outcome='ok' if st == 'ok' else 'FAIL', mapping='lut')
+        if st != 'ok' or not np.array_equal(np.asarray(v, dtype=np.float64), np.full((3, 4), 2.5)):
+            ctx.fail(dict(case, path=f'{tag}/rwvm'), v if st != 'ok' else 'differs', site=f'{tag}/rwvm')
+
+
 def replay(ctx, case):
     import hd_env  # noqa: F401
     import warnings
@@ -1000,6 +1073,8 @@ def replay(ctx, case):
     sub = type(ctx)(ctx.prop, ctx.tier, ctx.seed, 1, ctx.driver)
     if case.get('kind') == 'pm-float-witness':
         _float_witness(sub)
+    elif case.get('kind') == 'pm-lut1-witness':
+        _lut1_witness(sub)
     elif case.get('kind') == 'pm' and 'idx' in case:
         _check_pm(sub, case['idx'], [], [])
     elif case.get('kind') == 'sc':
@@ -1013,7 +1088,9 @@ def replay(ctx, case):
 def attribute(failure, open_findings):
     """C19-float-frames-unreadable: frames of float parametric maps cannot be read through the Image interface
     (get_stored_frame(s), lazy pixel_array, get_frame, get_volume): AttributeError on PixelData / PixelRepresentation.
-    C19-sc-bits-allocated-12: SCImage(bits_allocated=12) writes Bits Allocated 12, which pydicom does not decode."""
+    C19-sc-bits-allocated-12: SCImage(bits_allocated=12) writes Bits Allocated 12, which pydicom does not decode.
+    C19-single-entry-lut-unreadable: get_frame(s)(apply_real_world_transform=True) raises TypeError when the selected
+    mapping is a look-up table with one entry (image.py wraps the bare number pydicom returns into a 0-d array)."""
     ids = {f['id'] for f in open_findings}
     c = failure.get('case') or {}
     d = failure.get('detail')
@@ -1022,6 +1099,11 @@ def attribute(failure, open_findings):
             and (site.startswith('eager/') or site.startswith('lazy/')) and site not in ('eager/pixel_array', 'eager/open', 'lazy/open') \
             and isinstance(d, str) and d.startswith('AttributeError') and ('PixelData' in d or 'PixelRepresentation' in d):
         return 'C19-float-frames-unreadable'
+    # C19-single-entry-lut-unreadable: only reads with the real-world transform whose selected mapping is a one-entry table,
+    # and only the reader's own TypeError
+    if 'C19-single-entry-lut-unreadable' in ids and c.get('kind') == 'pm' and c.get('single_lut') is True \
+            and site.split('/')[-1] in ('rwvm', 'rwvm-batch') and d == _LUT1_ERROR:
+        return 'C19-single-entry-lut-unreadable'
     # C19-sc-bits-allocated-12: only SCImage(uint16 array, bits_allocated=12) in a native syntax, and only its three faces:
     # the object says Bits Allocated 12, pydicom refuses exactly that value, values >= 4096 are not checked
     if 'C19-sc-bits-allocated-12' in ids and c.get('kind') == 'sc' and c.get('ba') == 12 and c.get('dtype') == 'uint16' \
